@@ -1712,6 +1712,14 @@ pub fn thread_effects(sig: &mut syn::Signature, block: &mut Block, w: &str, ty: 
                                 let args = &c.args;
                                 repl = Some(parse_quote!(#w.#m(#args)));
                             }
+                            // `pass`: the callee is itself effect-threaded in this unit — it receives the world as its last
+                            // argument; an optional index names an injected-effect argument (a closure) that is dropped
+                            if k == "pass" && *pat == path {
+                                let drop: Option<usize> = m.parse().ok();
+                                let args: Vec<&Expr> = c.args.iter().enumerate().filter(|(i, _)| Some(*i) != drop).map(|(_, a)| a).collect();
+                                let f = &c.func;
+                                repl = Some(parse_quote!(#f(#(#args,)* #w)));
+                            }
                         }
                     }
                 }
